@@ -119,6 +119,10 @@ def run(ctx):
     res, tb_cancel = eval_cancel(ctx)
     tcon = f"{tb_cancel.module.relpath}::{tb_cancel.qual}"
     refused = res.pop("refused", None)
+    zero = res.pop("zero", None)
+    r2.check(zero == [0], tcon + "::opaque-id", "job ids are opaque: the local pool's first task (id 0) is cancelled like any other",
+             f"TrackingBackend.cancel(T) with T tracked as job id 0 (the first task of a fresh local pool) gives {zero}; expected ops.cancel_job(0): the id is judged by its "
+             "truth value, so that task is reported as not cancellable and keeps running", tb_cancel.where)
     bad = {k: v for k, v in res.items() if k != "untracked" and v != [tok("ID")]}
     r2.check(not bad, tcon + "::id", "whatever gwf last knew about the job, ops.cancel_job receives exactly the id tracked under the target's own name",
              f"TrackingBackend.cancel(T) with T tracked as <id>: per last-known job state the scheduler's cancel gets {bad} (expected [<id>] always): "
